@@ -20,7 +20,7 @@ def templates(ctx):
         ('grid-cols', [GRID, k]), ('grid-row', [GRID + b'a\n', k]), ('grid-row2', [GRID + b'a,b\n1', k]),
         ('grid-meta', [b'ver:"3.0" ', k]), ('grid-colmeta', [GRID + b'a ', k]),
         ('list', [b'[', k]), ('list2', [b'[1,', k]), ('dict', [b'{', k]), ('dict2', [b'{a:1 ', k]), ('dict3', [b'{a', k]),
-        ('nested-grid', [b'<<', k]), ('str', [b'"', k]), ('str-esc', [b'"\\', k]), ('str-u', [b'"\\u', k + 1]),
+        ('nested-grid', [b'<<', k]), ('str', [b'"', k]), ('str-esc', [b'"\\', k]), ('str-u', [b'"\\u', k + 1]), ('str-u4', [b'"\\u', 4, b'"']), ('uri-u4', [b'`\\u', 4, b'`']),
         ('uri', [b'`', k]), ('uri-esc', [b'`\\', k]), ('ref', [b'@', k]), ('ref-dis', [b'@a ', k]), ('sym', [b'^', k]),
         ('coord', [b'C(', k]), ('coord2', [b'C(1,', k]), ('xstr', [b'X(', k]), ('xstr2', [b'Xy("', k]),
         ('num', [b'1', k]), ('num-exp', [b'1e', k]), ('neg', [b'-', k]), ('num-unit', [b'1.5', k]),
